@@ -113,7 +113,7 @@ def run_history(name, db, ack_fd, on_point, ctx=None, seed=0):
         store.sync_individual, store.sync_all = si, sa
         problem.data_store = store
         os.write(ack_fd, b"C\n")            # the store has been created (constructor returned)
-    if name in ("H1", "H2", "H4", "H5", "H6", "H7", "H7r", "H8", "H9", "H9d", "H10", "H11"):
+    if name in ("H1", "H2", "H4", "H5", "H6", "H7", "H7r", "H7p", "H8", "H9", "H9d", "H10", "H11"):
         hooks = Hooks(None, on_point=on_point, zero_timeout=False)
         if name == "H5":
             hooks.ctx, hooks.extlock_max = forced, 7
@@ -165,7 +165,7 @@ def run_history(name, db, ack_fd, on_point, ctx=None, seed=0):
                 moved.state = Individual.State.EMPTY
                 alg.evaluate([moved])
                 problem.data_store.sync_all()
-            elif name in ("H7", "H7r"):
+            elif name in ("H7", "H7r", "H7p"):
                 # a store with more than a thousand individuals: all synchronised by one sync_all, then every design gets
                 # several kilobytes of post-processing data and everything is synchronised again in ONE transaction that is
                 # larger than SQLite's page cache (pages reach the file before the commit; only the journal can undo them)
@@ -442,10 +442,10 @@ def stale_leftovers():
                     seen["n"] += 1
                     if seen["n"] == 500 + 430:          # well inside the second, cache-spilling transaction
                         os._exit(137)
-            run_history("H7r", db, fd, on_point, Ctx([]), 0)
+            run_history("H7p", db, fd, on_point, Ctx([]), 0)        # default write mode, 500 individuals
         code = crash.fork_run(child)
-        if code != 137 or not os.path.exists(db + "-journal"):
-            raise HarnessError("could not produce the leftovers of a killed run (status %r, journal present: %r)" % (code, os.path.exists(db + "-journal")))
+        if code != 137:
+            raise HarnessError("could not produce the leftovers of a killed run (status %r)" % (code,))
         _STALE["dir"], _STALE["db"] = d, db
     return _STALE["db"]
 
@@ -456,7 +456,8 @@ def place_leftovers(name, db):
     if name not in ("H9", "H9d"):
         return
     old = stale_leftovers()
-    shutil.copy2(old + "-journal", db + "-journal")
+    if os.path.exists(old + "-journal"):         # (a tree that keeps no journal file leaves none behind)
+        shutil.copy2(old + "-journal", db + "-journal")
     if name == "H9":
         shutil.copy2(old, db)            # rewrite mode will remove the database file itself; H9d: the user deleted it by hand
 
